@@ -13,6 +13,9 @@ const QuotasAvailable = false
 
 type runtimeContextManager struct {
 	messageHandler Callable
+	// messageHandlerThread is the thread that installed messageHandler (nil:
+	// not tied to a thread), see runtimecontextmanager.go.
+	messageHandlerThread *Thread
 	parent         *runtimeContextManager
 	weakRefPool    luagc.Pool
 }
@@ -72,6 +75,7 @@ func (m *runtimeContextManager) RuntimeContext() RuntimeContext {
 func (m *runtimeContextManager) PushContext(ctx RuntimeContextDef) {
 	parent := *m
 	m.messageHandler = ctx.MessageHandler
+	m.messageHandlerThread = nil
 	m.parent = &parent
 }
 
